@@ -246,6 +246,7 @@ class Engine:
         sc["logger"] = T.draw(4) == 0
         sc["slow_disk"] = T.draw(3) == 0
         sc["stale_files"] = T.draw(3) == 0
+        sc["slow_observers"] = T.draw(3) == 0
         # the program joins only the tokenizer and returns (as a script
         # would): non-daemon observers still finish before the process exits
         sc["join_only_tokenizer"] = (
@@ -337,6 +338,10 @@ class Engine:
                 super().__init__(timeout=timeout)
 
             def _process_message(self, message):
+                if sc.get("slow_observers"):
+                    # a slow consumer: processing takes virtual time
+                    sim.step("obs.work", None)
+                    stall.maybe_stall(sim)
                 self.got.append(message)
                 self.seqs.append(sim.seq)
 
